@@ -41,7 +41,8 @@ fn lex_(mut input: &str, mut start_of_line: bool) -> impl Iterator<Item = (Synta
                 crate::verif::lex_transition(start_of_line, colon_count > 0, indent > 0, c);
             }
             match c {
-                ':' if colon_count == 0 => {
+                // (in a continuation line a ':' is value text)
+                ':' if colon_count == 0 && indent == 0 => {
                     colon_count += 1;
                     input = &input[1..];
                     Some((SyntaxKind::COLON, ":"))
